@@ -298,7 +298,7 @@ def backends(chk):
     for c in res.replays:
         rule, ms = c["case"]["rule"], c["members"]
         if c["case"]["pos"] == "field":
-            srcs.append(f'#[typeshare]\n#[serde(rename_all = "{rule}")]\npub struct Backend {{\n' + "".join(f"    pub {rust_ident(m['ident'])}: u32,\n" for m in ms) + "}\n")
+            srcs.append(f'#[typeshare]\n#[serde(rename_all = "{rule}")]\npub struct Backend {{\n' + "".join(f"    #[typeshare(typescript(type = \"Date\"))]\n    pub {rust_ident(m['ident'])}: u32,\n" for m in ms) + "}\n")
         else:
             srcs.append(f'#[typeshare]\n#[serde(rename_all = "{rule}")]\npub enum Backend {{\n' + "".join(f"    {m['ident']},\n" for m in ms) + "}\n")
     events, meta = [], []
@@ -319,6 +319,12 @@ def backends(chk):
             for m, g in zip(c["members"], got):
                 events.append({"pos": c["case"]["pos"], "rule": c["case"]["rule"], "ident": toks(m["ident"]), "panic": False, "obs": toks(g)})
                 meta.append((lang, c, src, m, g))
+            if lang == "typescript" and c["case"]["pos"] == "field":
+                # every member has TypeScript's custom JSON translation (a Date override): the helper code names each member by its wire name
+                rk = sorted(r["obs"].get("reviver_keys", []))
+                for m, g in zip(sorted(c["members"], key=lambda m_: m_["expect"]), rk + [""] * len(c["members"])):
+                    events.append({"pos": "field", "rule": c["case"]["rule"], "ident": toks(m["ident"]), "panic": False, "obs": toks(g)})
+                    meta.append(("typescript-reviver", c, src, m, g))
     ok, matched, tres = common.trace_validate("Trace_C16", events, timeout=600)
     chk.add_tlc("Trace_C16[backends]", tres)
     if matched != len(events):
